@@ -33,6 +33,10 @@ def run(tier, prop="C15", rules=("C15.R1", "C15.R2", "C15.R3"), floors=None):
         else:
             v, regs = VL.registrations(facts, b)
             keys = sorted(str(r["key"]) for r in regs)
+            per, _why = VL.discover(facts)
+            if per:
+                keys = sorted(set(str(k_) for regs_ in per for k_, _f in regs_))
+                regs = [{"key": k_, "ln": b["line"]} for k_ in keys]
             ok = keys == ["exp", "nbf"]
             res.oblige(ok)
             if ok:
